@@ -970,3 +970,37 @@ func (c *Ctx) Query(assumes []*Term, goal *Term, getValues []*Term, timeoutMs in
 	return head.String()
 }
 
+
+// freeBoundVars lists the bound variables occurring free in t.
+func freeBoundVars(t *Term) []*Term {
+	var out []*Term
+	seen := map[*Term]bool{}
+	var rec func(t *Term, bs map[*Term]bool)
+	rec = func(t *Term, bs map[*Term]bool) {
+		if !t.open {
+			return
+		}
+		if t.Op == "bound" {
+			if !bs[t] && !seen[t] {
+				seen[t] = true
+				out = append(out, t)
+			}
+			return
+		}
+		nbs := bs
+		if t.Op == "forall" || t.Op == "exists" {
+			nbs = map[*Term]bool{}
+			for k := range bs {
+				nbs[k] = true
+			}
+			for _, b := range t.Bound {
+				nbs[b] = true
+			}
+		}
+		for _, a := range t.Args {
+			rec(a, nbs)
+		}
+	}
+	rec(t, map[*Term]bool{})
+	return out
+}
